@@ -104,6 +104,12 @@ def strays_for(rnd, ents, puts):
     for p in sorted(puts, key=lambda p: p["at"]):
         n = seqs.get(p["from"], 0)
         seqs[p["from"]] = n + 1
+        if rnd.random() < 0.4:
+            # a PDU of a transaction of SOMEBODY ELSE (entity 9 has no transactions here) whose sequence number equals
+            # that of a live local send transaction: entities count independently, so equal numbers are normal
+            k = rnd.choice(["Finished", "ACK", "NAK", "KeepAlive"])
+            out.append({"to": p["from"], "at": p["at"] + rnd.choice([0, 1000, 2000, 4000]),
+                        "pdu": {"k": k, "of": "EOF", "src": 9, "seq": n, "dir": "ToSender", "dst": p["to"], "mode": p["mode"]}})
         if rnd.random() < 0.5:
             continue
         which = rnd.choice(["ackfin_to_receiver", "nak_to_sender", "own_id_back", "late_data", "finished_to_sender"])
